@@ -1,5 +1,6 @@
+\* as RangeSplit_wide, 6-bit type
 CONSTANTS BODY = "B"  TNEG = 32  TMAX = 31  CNEG = 32  CMAX = 31  BNEG = 32  BHI = 31
-          MAXELEMS = 16  MAXPEERS = 6  REVERSED = FALSE  NEARMAX = TRUE  WRAPPED = TRUE
+          MAXELEMS = 16  MAXPEERS = 6  FIX_REVERSED = TRUE  FIX_CLAMP_START = TRUE  WRAPPED = TRUE
 SPECIFICATION Spec
 INVARIANTS C15_Range
 CHECK_DEADLOCK FALSE
